@@ -92,7 +92,9 @@ func (r Resources) ContainsBucketPattern() bool {
 // Bucket resources should start with bucket name: arn:aws:s3:::MyBucket/*
 func (r Resources) Validate(bucket string) error {
 	for resource := range r {
-		if !strings.HasPrefix(resource, bucket) {
+		// the bucket itself or something inside it: a plain prefix test
+		// would let "mybucket2/*" through for bucket "mybucket"
+		if resource != bucket && !strings.HasPrefix(resource, bucket+"/") {
 			return policyErrInvalidResource
 		}
 	}
